@@ -732,6 +732,12 @@ class Printer:
             return p + '{\n' + body + p + '}\n'
         if k == 'DeclStmt':
             return ''.join(self.vardecl(v, p) for v in inner)
+        if k == 'AttributedStmt':
+            # `[[fallthrough]];` / `[[likely]] stmt`: the attributes carry no semantics, the sub-statement is printed
+            subs = [c for c in inner if not c.get('kind', '').endswith('Attr')]
+            if len(subs) != 1:
+                raise Unsupported('attributed statement with %d sub-statements' % len(subs))
+            return self.stmt(subs[0], ind)
         if k == 'IfStmt':
             parts = list(inner)
             pre = ''
